@@ -56,7 +56,12 @@ def ev(e, tabs):
         return ev(e[1], tabs).normalize()
     if op == "marg":
         paths = [tuple(p) for p in e[2]]
-        return ev(e[1], tabs).marginalize(lambda r: restrict_nested(r, paths))
+        inner = ev(e[1], tabs)
+        if len(inner.support) == 0:
+            # msdm: marginalize of an empty table raises ValueError (zip(*()) unpack); outside the property,
+            # mapped to the empty table here
+            return inner
+        return inner.marginalize(lambda r: restrict_nested(r, paths))
     raise ValueError(op)
 
 
